@@ -691,7 +691,9 @@ Proof.
     rewrite tg_session_send_dtls in H by apply P1.
     destruct (tg_dtls_send O s1 m) as [[s2 o2] bw] eqn:DS.
     destruct (tg_dtls_send_post _ _ _ _ _ _ P1 DS) as [Q2 _].
-    destruct ((0 <=? bw) && tm_con m); inversion H; subst; exact Q2.
+    destruct ((0 <=? bw) && tm_con m); [inversion H; subst; exact Q2|].
+    destruct ((bw <? 0) && (0 <? ts_con_active s) && tg_in id (tg_ids (ts_sendq s2)));
+      inversion H; subst; exact Q2.
 Qed.
 
 (* a session that has been freed takes no further steps; before that the invariant holds *)
